@@ -17,7 +17,7 @@ An input is {"typ", "cells": [cell], "map": [{"o", "n"}], "flt": [{"sec", "raw",
   atom  {"k", "s"}       k = "s" text | "n" number (s = repr) | "z" None | "b" bool | "x" other
   cell  {"k", "s", "l"}  k as for atoms or "l" list (l = atoms)
   ent   {"key", "isl", "vals"}  one member of the filter's JSON object (isl: its value is a list)
-A case is {"inp", "typ", "map", "cref", "b", "a", "exc", "d0", "un": {"exc", "d"}} - see
+A case is {"inp" (the input as JSON TEXT, so that TLC does not parse what it does not read), "typ", "map", "cref", "b", "a", "exc", "d0", "un": {"exc", "d"}} - see
 spec/RenameChoices.tla for the state records b / a.  Filter texts are decoded with json.loads.
 Nothing is judged here.
 """
@@ -195,10 +195,12 @@ class Runner(object):
                       "col": col if type(col) is int else -1 - digest(col),    # pylint: disable=unidiomatic-typecheck
                       "sec": sec if type(sec) is int else -1 - digest(sec),    # pylint: disable=unidiomatic-typecheck
                       "pin": digest(rest), "raw": raw, "d": digest(text), "ents": ents})
-    tabs = [{"t": tab + ".rest", "d": digest({c: v for c, v in cols.items() if c not in ("C", "O")})}]
-    for t in sorted(snap):
-      if t not in (tab, "_grist_Filters"):
-        tabs.append({"t": t, "d": digest(snap[t])})
+    # everything else in the document, as three digests: the target's other columns, the other user
+    # tables, the metadata tables
+    tabs = [{"t": tab + ".rest", "d": digest({c: v for c, v in cols.items() if c not in ("C", "O")})},
+            {"t": "user tables", "d": digest({t: snap[t] for t in snap if t != tab and not t.startswith("_grist_")})},
+            {"t": "metadata", "d": digest({t: snap[t] for t in snap
+                                            if t.startswith("_grist_") and t != "_grist_Filters"})}]
     return {"rows": [int(r) for r in rows], "c": [cell_of(v) for v in cols.get("C", [])],
             "o": [cell_of(v) for v in cols.get("O", [])], "filters": filters, "tabs": tabs}
 
@@ -226,14 +228,14 @@ class Runner(object):
       except Exception as e:   # pylint: disable=broad-except
         un["exc"] = type(e).__name__
       un["d"] = digest(adapter.fetch_all(eng))
-    case = {"inp": inp, "typ": inp["typ"], "map": inp["map"], "cref": self.meta[tab]["C"],
+    case = {"inp": json.dumps(inp, sort_keys=True), "typ": inp["typ"], "map": inp["map"], "cref": self.meta[tab]["C"],
             "b": before, "a": after, "exc": exc, "d0": d0, "un": un}
     return case, bool(exc or un["exc"])
 
 
 def bookkeeping(stats, case):
   """Coverage facts (no judgement): which paths of the input space were visited."""
-  inp, b, a = case["inp"], case["b"], case["a"]
+  inp, b, a = json.loads(case["inp"]), case["b"], case["a"]
   s = stats["rnd" if inp.get("rnd") else "enum"]
   s["cases"] += 1
   if case["exc"]:
